@@ -579,6 +579,9 @@ func damageCase(goit string, c *Chunk, snap map[string][]byte, tz int, good M, g
 			}
 		}
 	}
+	if len(tracked) > 0 && mi%3 == 1 {
+		run("restore-staged", "restore", "--staged", tracked[mi%len(tracked)])
+	}
 	if mi%5 == 0 {
 		run("reset-hard", "reset", "--hard", "HEAD@{0}")
 	}
